@@ -204,3 +204,28 @@ func postfixChains(w *eng.W, leg string, depth int, f func(leg string, src []byt
 	}
 	_ = inst{}
 }
+
+// lookaheadForms: the parser's only speculative path is the member name on the line after a
+// dot; this family puts such a member access in every list / conditional / parenthesis context
+// and follows it by every sequence of up to three tokens from an alphabet of error and
+// continuation tokens (one input per shortcut visible in the code: look-ahead + recovery).
+func lookaheadForms(w *eng.W, leg string, f func(leg string, src []byte)) {
+	contexts := []string{"%s", "[%s]", "f(%s)", "(%s)", "[c ? %s]", "f(c ? %s)", "c ? %s", "[x, %s]", "f(x, %s", "[c ? %s : d]", "-%s", "typeof %s"}
+	bodies := []string{"a.\nb", "a!.\nb", "a.\n\nb", "a.b.\nc", "a.\ntrue", "a.\n'b'", "f().\nb", "a.\r\nb", "a.\u2028b"}
+	alpha := []string{"#", "b", ")", "]", ",", ":", "?", "1", ".", "(", "+", "\n", "'", "=", "..."}
+	for _, ctx := range contexts {
+		for _, body := range bodies {
+			ctx, body := ctx, body
+			for l := 0; l <= 3; l++ {
+				seqsSharded(w, len(alpha), l, func(idx []int) {
+					tail := string(joinIdx(alpha, idx, " "))
+					inner := body
+					if tail != "" {
+						inner += " " + tail
+					}
+					f(leg, []byte(strings.Replace(ctx, "%s", inner, 1)))
+				})
+			}
+		}
+	}
+}
